@@ -110,6 +110,10 @@ class IfWriteHandler(AbstractWriteHandler):
             ), f"Invalid if-structure for if {m.if_id}"
 
             if v_after_if_branch is None:
+                if else_ends_on_common_vtx and else_edge is not None:
+                    # The if-branch left by a jump and there is no else-branch: when the condition does not hold,
+                    # control continues at the end label of the if; it is written (or jumped to) next.
+                    return else_edge.target_vertex
                 return v_after_else_branch
             return v_after_if_branch
 
